@@ -55,13 +55,13 @@ def docs_check(chk, prop, libname, decl_dir, netcdf):
     return n
 
 
-def run_model(decl_dir, prepass=True, total=True, dump=True, workers=None, allkinds=False):
+def run_model(decl_dir, prepass=True, total=True, dump=True, workers=None, allkinds=False, init="Init"):
     d = core.scratch_dir("mpv-val-")
     cfg = os.path.join(d, "v.cfg")
     with open(cfg, "w") as f:
-        f.write("CONSTANTS PrepassAll = %s CleanersTotal = %s AllKinds = %s Pairs = TRUE\nINIT Init\nNEXT Next\nCHECK_DEADLOCK FALSE\n" % (
-            "TRUE" if prepass else "FALSE", "TRUE" if total else "FALSE", "TRUE" if allkinds else "FALSE"))
-        for inv in ("AcceptIffWellFormed", "ErrorIsAFault", "RejectBeforeEffects", "EscapeTyped") + (() if allkinds else ("BuilderSound",)):
+        f.write("CONSTANTS PrepassAll = %s CleanersTotal = %s AllKinds = %s Pairs = TRUE\nINIT %s\nNEXT Next\nCHECK_DEADLOCK FALSE\n" % (
+            "TRUE" if prepass else "FALSE", "TRUE" if total else "FALSE", "TRUE" if allkinds else "FALSE", init))
+        for inv in ("AcceptIffWellFormed", "ErrorIsAFault", "RejectBeforeEffects", "EscapeTyped", "CyclicRejected") + (() if allkinds else ("BuilderSound",)):
             f.write("INVARIANT %s\n" % inv)
     dumpf = os.path.join(d, "states") if dump else None
     r = core.run_tlc("MPValidate", cfg, workers=workers, timeout=1500, dump=dumpf, javaopts=["-DTLA-Library=" + decl_dir])
@@ -138,6 +138,8 @@ def render(prog, variant=0, netcdf=False):
     """-> (source, line table {lineno: (cmd index, param name or '')})"""
     lines = []
     table = {}
+    # in a model with a reference cycle the back edge may enter through a zero-weighted input: the reference is a reference all the same
+    zero_weights = variant % 2 == 0 and any(c[0] == "U" for c in prog)
     if variant % 2:        # the file may begin with blank lines (1, 5) or with a comment (3)
         lines += ["", "  ", "# generated model", ""] if variant in (1, 5) else ["# generated model", ""]
     for ci, (res, cname, args) in enumerate(prog):
@@ -159,7 +161,10 @@ def render(prog, variant=0, netcdf=False):
                 lines.append("        %s%s" % (render_value(v, pn, res, netcdf), "," if ai < len(args) - 1 else ""))
                 table[len(lines)] = (ci + 1, pn)   # ... and reaches to the line its value starts on (either line locates it)
                 continue
-            lines.append("    %s = %s%s" % (pn, render_value(v, pn, res, netcdf), "," if ai < len(args) - 1 else ""))
+            text = render_value(v, pn, res, netcdf)
+            if zero_weights and pn == "Weights":
+                text = re.sub(r"[0-9.]+", "0", text)
+            lines.append("    %s = %s%s" % (pn, text, "," if ai < len(args) - 1 else ""))
             table[len(lines)] = (ci + 1, pn)
         lines.append(")")
     return "\n".join(lines) + "\n", table
@@ -327,12 +332,12 @@ def fault_label(pr):
     return f[0] + (":" + f[1] if f[1] else "")
 
 
-def run_check(chk, prop, tier, clause_prefixes, libsets, allkinds=False, keep=None):
+def run_check(chk, prop, tier, clause_prefixes, libsets, allkinds=False, keep=None, init="Init"):
     for libname, libs in libsets:
         netcdf = libname == "netcdf"
         decl_dir, dl = prepare_decl(libs)
         ndoc = docs_check(chk, prop, libname, decl_dir, netcdf) if prop == "C12" else 0
-        r, progs = run_model(decl_dir, allkinds=allkinds)
+        r, progs = run_model(decl_dir, allkinds=allkinds, init=init)
         if r.violated == "BuilderSound" and prop != "C12":
             chk.note("MPValidate's fixture is ill-formed under the live declarations (BuilderSound): that is C12's subject; this part of %s is skipped" % prop)
             return
